@@ -446,20 +446,25 @@ Example C01_keeps_order_nonvacuous :
   end /\ nodrop_ok ex_B (ex_pub ex_t_x 0 false) s = true.
 Proof. vm_compute. repeat split. Qed.
 
-(* COUNTEREXAMPLE (the reason for `m_topic m <> []` above).  A PUBLISH whose topic name is the empty
-   string - which the decoder accepts - makes the store return EVERY subscription (Iterate treats
-   TopicName "" as "no topic given"): b publishes "" and a, whose filters "t/#" and "t/+" do not match
-   "", receives it twice on socket 1; b itself receives it through "t/x" and through the share group.
-   Reproduced on the real broker (v3.1.1 client subscribed to "t/x" only receives 30 04 00 00 68 69). *)
+(* COUNTEREXAMPLE (the reason for `m_topic m <> []` above).  A message whose topic name is the empty
+   string makes the store return EVERY subscription (Iterate treats TopicName "" as "no topic given"):
+   "" is delivered and a, whose filters "t/#" and "t/+" do not match "", receives it twice on socket 1;
+   b receives it through "t/x" and through the share group.  Since the repair of the read loop a client
+   can no longer cause this: a PUBLISH with an empty topic name and no Topic Alias is refused
+   (DISCONNECT 0x82, first equation); `deliver` itself still behaves this way (second equation: the
+   same message handed to deliver by the API publisher), hence the hypothesis stays in the
+   deliver-level statements.  Before the repair it was reproduced on the real broker (v3.1.1 client
+   subscribed to "t/x" only receives 30 04 00 00 68 69). *)
 Example C01_empty_topic_reaches_everyone :
   let s := ex_state false [] in
   forallb (fun o => match o with OSub _ sb => negb (sub_matches [] sb) | _ => true end) ex_ops = true /\
-  snd (run s [ESend 2 (KPublish false 0 false [] [104] 0 [])]) =
-  [[OSend 1 (KPublish false 0 false [] [104] 0 [PSubId 7]);
-    OSend 1 (KPublish false 0 false [] [104] 0 []);
-    OSend 2 (KPublish false 0 false [] [104] 0 [PSubId 9]);
-    OSend 2 (KPublish false 0 false [] [104] 0 [PSubId 9])]].
-Proof. vm_compute. split; reflexivity. Qed.
+  snd (run s [ESend 2 (KPublish false 0 false [] [104] 0 [])]) = [[OSend 2 (KDisconnect 130 []); OClose 2]] /\
+  snd (run s [EApiPublish (ex_pub [] 0 false)]) =
+  [[OSend 1 (KPublish false 0 false [] [104; 105] 0 [PSubId 7]);
+    OSend 1 (KPublish false 0 false [] [104; 105] 0 []);
+    OSend 2 (KPublish false 0 false [] [104; 105] 0 [PSubId 9]);
+    OSend 2 (KPublish false 0 false [] [104; 105] 0 [PSubId 9])]].
+Proof. vm_compute. repeat split. Qed.
 
 (* SECOND FINDING (why `sub_matches` uses level matching only for shared subscriptions): the store
    applies MQTT-4.7.2-1 ("a filter starting with a wildcard does not match a topic starting with $")
